@@ -22,6 +22,7 @@ import (
 	"github.com/form3tech-oss/f1/v2/internal/ui"
 	"github.com/form3tech-oss/f1/v2/pkg/f1"
 	"github.com/form3tech-oss/f1/v2/pkg/f1/scenarios"
+	f1t "github.com/form3tech-oss/f1/v2/pkg/f1/testing"
 )
 
 // h1Run is everything one simulated whole-run produced (per consecutive run of the configuration).
@@ -50,6 +51,11 @@ type h1State struct {
 	Metrics  *metrics.Metrics
 	Finished bool
 	YAMLPath string
+	// one process: the scenario registry and the combined scenario value live as long as the process and are
+	// used by every run in it; cur is the run that is executing
+	scens    *scenarios.Scenarios
+	cur      *scenRT
+	combined f1t.ScenarioFn
 }
 
 func sortedFlagArgs(flags map[string]string) []string {
@@ -102,10 +108,17 @@ func h1OneRun(env *Env, c *H1Cfg, st *h1State, runIdx int) {
 	rec.SlowNs = c.SlowOutputNs
 	hr := &h1Run{GT: g, Rec: rec}
 	st.Runs = append(st.Runs, hr)
-	rt := &scenRT{env: env, cfg: c, g: g}
+	rt := &scenRT{env: env, cfg: c, g: g, st: st}
+	st.cur = rt
 
 	out := ui.NewOutput(slog.New(rec.Handler()), ui.NewPrinter(recWriter{r: rec}, recWriter{r: rec, err: true}), c.Interactive, true)
-	scens := scenarios.New().Add(&scenarios.Scenario{Name: g.Scenario, ScenarioFn: rt.scenarioFn})
+	if st.scens == nil {
+		st.scens = scenarios.New()
+	}
+	scens := st.scens
+	if scens.GetScenario(g.Scenario) == nil {
+		scens.Add(&scenarios.Scenario{Name: g.Scenario, ScenarioFn: func(t *f1t.T) f1t.RunFn { return st.cur.scenarioFn(t) }})
+	}
 	settings := envsettings.Settings{Log: envsettings.Log{FilePath: os.DevNull}}
 
 	ctx, cancel := context.WithCancel(context.Background())
